@@ -260,6 +260,8 @@ def install_std_extras(eng):
     S(r"^Option::<.*>::is_none$", per_variant(lambda e, st, c, v, a: Outcome(BoolV(v.vname == "None"))))
     S(r"^Result::<.*>::is_ok$", per_variant(lambda e, st, c, v, a: Outcome(BoolV(v.vname == "Ok"))))
     S(r"^Result::<.*>::is_err$", per_variant(lambda e, st, c, v, a: Outcome(BoolV(v.vname == "Err"))))
+    S(r"^Result::<.*>::is_ok_and::<", per_variant(lambda e, st, c, v, a: Outcome(BoolV(False)) if v.vname == "Err" else call_closure(e, st, c, a[1], [v.fields[0]], lambda s2, r: r)))
+    S(r"^Result::<.*>::is_err_and::<", per_variant(lambda e, st, c, v, a: Outcome(BoolV(False)) if v.vname == "Ok" else call_closure(e, st, c, a[1], [v.fields[0]], lambda s2, r: r)))
     S(r"^Result::<.*>::ok$", per_variant(lambda e, st, c, v, a: Outcome(some(v.fields[0]) if v.vname == "Ok" else none())))
     S(r"^Result::<.*>::err$", per_variant(lambda e, st, c, v, a: Outcome(some(v.fields[0]) if v.vname == "Err" else none())))
     S(r"^Option::<.*>::unwrap_or$", per_variant(lambda e, st, c, v, a: Outcome(v.fields[0] if v.vname == "Some" else a[1])))
